@@ -377,13 +377,13 @@ func (w *World) Deliver(m sdk.Msg, faults []bool) (obs txObs) {
 	}
 	defer func() {
 		if r := recover(); r != nil {
-			obs = txObs{out: "panic", resp: "-", errTag: fmt.Sprint(r)}
+			obs = txObs{out: "panic", resp: "-", errTag: errTag(fmt.Errorf("%v", r)) + " #msg=" + errMsg(fmt.Errorf("%v", r))}
 			finish()
 		}
 	}()
 	resp, err := callMsg(w.msgSrv, cacheCtx, m)
 	if err != nil {
-		obs = txObs{out: "err", resp: "-", errTag: errTag(err)}
+		obs = txObs{out: "err", resp: "-", errTag: errTag(err) + " #msg=" + errMsg(err)}
 		finish()
 		return obs
 	}
@@ -394,6 +394,23 @@ func (w *World) Deliver(m sdk.Msg, faults []bool) (obs txObs) {
 	commit()
 	finish()
 	return obs
+}
+
+// errMsg: the whole error text, sanitised (evidence only: which rejection branch was taken).
+func errMsg(err error) string {
+	s := strings.Map(func(r rune) rune {
+		if r == ' ' || r == '=' {
+			return '_'
+		}
+		if r < 33 || r > 126 {
+			return -1
+		}
+		return r
+	}, err.Error())
+	if len(s) > 200 {
+		s = s[:200]
+	}
+	return s
 }
 
 func errTag(err error) string {
@@ -556,7 +573,7 @@ func showPage(items []string, p *query.PageResponse) string {
 func (w *World) Query(name string, kv *KV) (line string) {
 	defer func() {
 		if r := recover(); r != nil {
-			line = "out=panic #tag=" + errTag(fmt.Errorf("%v", r))
+			line = "out=panic #tag=" + errTag(fmt.Errorf("%v", r)) + " #msg=" + errMsg(fmt.Errorf("%v", r))
 		}
 	}()
 	nilReq := kv.get("nil") == "1"
@@ -788,7 +805,7 @@ func (w *World) Query(name string, kv *KV) (line string) {
 		wr = " #qwrites=" + strings.Join(ks, ",")
 	}
 	if err != nil {
-		return "out=err #tag=" + errTag(err) + wr
+		return "out=err #tag=" + errTag(err) + " #msg=" + errMsg(err) + wr
 	}
 	return "out=ok resp=" + resp + wr
 }
@@ -856,11 +873,11 @@ func (s *Session) Exec(op Op) (line string) {
 		gs := parseGenesis(kv)
 		defer func() {
 			if r := recover(); r != nil {
-				line = "out=panic"
+				line = "out=panic #msg=" + errMsg(fmt.Errorf("%v", r))
 			}
 		}()
 		if err := gs.Validate(); err != nil {
-			return "out=err #tag=" + errTag(err)
+			return "out=err #tag=" + errTag(err) + " #msg=" + errMsg(err)
 		}
 		return "out=ok"
 	case "genesis-init":
@@ -868,7 +885,7 @@ func (s *Session) Exec(op Op) (line string) {
 		cacheCtx, commit := s.w.ctx.CacheContext()
 		defer func() {
 			if r := recover(); r != nil {
-				line = "out=panic"
+				line = "out=panic #msg=" + errMsg(fmt.Errorf("%v", r))
 			}
 		}()
 		s.w.writes = nil
@@ -878,7 +895,7 @@ func (s *Session) Exec(op Op) (line string) {
 	case "genesis-export":
 		defer func() {
 			if r := recover(); r != nil {
-				line = "out=panic"
+				line = "out=panic #msg=" + errMsg(fmt.Errorf("%v", r))
 			}
 		}()
 		s.w.writes = nil
@@ -899,7 +916,7 @@ func (s *Session) Exec(op Op) (line string) {
 	case "verify":
 		defer func() {
 			if r := recover(); r != nil {
-				line = "out=panic"
+				line = "out=panic #msg=" + errMsg(fmt.Errorf("%v", r))
 			}
 		}()
 		var atts []types.Attester
@@ -908,64 +925,64 @@ func (s *Session) Exec(op Op) (line string) {
 		}
 		att := append([]byte{}, kv.bytes("attestation")...)
 		if err := keeper.VerifyAttestationSignatures(kv.bytes("message"), att, atts, kv.u32("threshold")); err != nil {
-			return "out=err #tag=" + errTag(err)
+			return "out=err #tag=" + errTag(err) + " #msg=" + errMsg(err)
 		}
 		return "out=ok"
 	case "msg-parse":
 		defer func() {
 			if r := recover(); r != nil {
-				line = "out=panic"
+				line = "out=panic #msg=" + errMsg(fmt.Errorf("%v", r))
 			}
 		}()
 		m, err := new(types.Message).Parse(kv.bytes("bz"))
 		if err != nil {
-			return "out=err"
+			return "out=err #msg=" + errMsg(err)
 		}
 		return fmt.Sprintf("out=ok ver=%d src=%d dst=%d nonce=%d sender=%x recipient=%x caller=%x body=%x", m.Version, m.SourceDomain, m.DestinationDomain, m.Nonce, m.Sender, m.Recipient, m.DestinationCaller, m.MessageBody)
 	case "msg-bytes":
 		defer func() {
 			if r := recover(); r != nil {
-				line = "out=panic"
+				line = "out=panic #msg=" + errMsg(fmt.Errorf("%v", r))
 			}
 		}()
 		m := types.Message{Version: kv.u32("ver"), SourceDomain: kv.u32("src"), DestinationDomain: kv.u32("dst"), Nonce: kv.u64("nonce"), Sender: kv.bytes("sender"), Recipient: kv.bytes("recipient"), DestinationCaller: kv.bytes("caller"), MessageBody: kv.bytes("body")}
 		bz, err := m.Bytes()
 		if err != nil {
-			return "out=err"
+			return "out=err #msg=" + errMsg(err)
 		}
 		return fmt.Sprintf("out=ok bz=%x", bz)
 	case "burn-parse":
 		defer func() {
 			if r := recover(); r != nil {
-				line = "out=panic"
+				line = "out=panic #msg=" + errMsg(fmt.Errorf("%v", r))
 			}
 		}()
 		b, err := new(types.BurnMessage).Parse(kv.bytes("bz"))
 		if err != nil {
-			return "out=err"
+			return "out=err #msg=" + errMsg(err)
 		}
 		return fmt.Sprintf("out=ok ver=%d token=%x recipient=%x amount=%s sender=%x", b.Version, b.BurnToken, b.MintRecipient, intStr(b.Amount), b.MessageSender)
 	case "burn-bytes":
 		defer func() {
 			if r := recover(); r != nil {
-				line = "out=panic"
+				line = "out=panic #msg=" + errMsg(fmt.Errorf("%v", r))
 			}
 		}()
 		b := types.BurnMessage{Version: kv.u32("ver"), BurnToken: kv.bytes("token"), MintRecipient: kv.bytes("recipient"), Amount: kv.optInt("amount"), MessageSender: kv.bytes("sender")}
 		bz, err := b.Bytes()
 		if err != nil {
-			return "out=err"
+			return "out=err #msg=" + errMsg(err)
 		}
 		return fmt.Sprintf("out=ok bz=%x", bz)
 	case "cli-parse":
 		defer func() {
 			if r := recover(); r != nil {
-				line = "out=panic"
+				line = "out=panic #msg=" + errMsg(fmt.Errorf("%v", r))
 			}
 		}()
 		bz, err := cli.ParseAddressForVerif(kv.str("s"))
 		if err != nil {
-			return "out=err"
+			return "out=err #msg=" + errMsg(err)
 		}
 		return fmt.Sprintf("out=ok bz=%x", bz)
 	case "key":
